@@ -84,6 +84,16 @@ fn check_pair_ctx(st: &mut St<X>, ranks: &[HandRank], keys: Option<&[u32]>, a: u
     if ops != want {
         bad(st, "the four comparison operators agree with cmp", "HandRank < <= > >=", format!("{:?} for cmp {:?}", want, c), format!("{:?}", ops));
     }
+    // `!=` is a separate trait method (PartialEq::ne) and max / min / clamp are separate Ord methods: a
+    // hand-written one must still say what `==` and cmp say
+    if (x != y) == (x == y) {
+        bad(st, "comparison is consistent with equality (x != y is the negation of x == y)", "HandRank != vs ==", format!("x != y is {}", !(x == y)), format!("{}", x != y));
+    }
+    let (mx, mn) = ((*x).max(*y), (*x).min(*y));
+    let (want_max, want_min) = if c == Ordering::Greater { (x, y) } else { (y, x) };
+    if mx != *want_max || mn != *want_min || mx.value != want_max.value || mn.value != want_min.value {
+        bad(st, "max / min agree with cmp", "HandRank::max / min", format!("max value {} min value {}", want_max.value, want_min.value), format!("max value {} min value {}", mx.value, mn.value));
+    }
     if let Some(k) = keys {
         let kc = k[a as usize].cmp(&k[b as usize]);
         if kc != c {
@@ -96,6 +106,32 @@ fn check_pair_ctx(st: &mut St<X>, ranks: &[HandRank], keys: Option<&[u32]>, a: u
             );
         }
     }
+}
+
+/// Some comparison form of `a`, `b` that contradicts `a.cmp(&b)` (or variant identity), if any.
+fn ops_disagree<T: Ord + Copy>(a: T, b: T, same_variant: bool) -> Option<&'static str> {
+    let c = a.cmp(&b);
+    if b.cmp(&a) != c.reverse() {
+        return Some("cmp (antisymmetry)");
+    }
+    if a.partial_cmp(&b) != Some(c) {
+        return Some("partial_cmp");
+    }
+    if [a < b, a <= b, a > b, a >= b] != [c == Ordering::Less, c != Ordering::Greater, c == Ordering::Greater, c != Ordering::Less] {
+        return Some("< <= > >=");
+    }
+    if (a == b) != (c == Ordering::Equal) || (a == b) != same_variant {
+        return Some("==");
+    }
+    if (a != b) == (a == b) {
+        return Some("!=");
+    }
+    let (mx, mn) = (a.max(b), a.min(b));
+    let (wmx, wmn) = if c == Ordering::Greater { (a, b) } else { (b, a) };
+    if mx.cmp(&wmx) != Ordering::Equal || mn.cmp(&wmn) != Ordering::Equal {
+        return Some("max / min");
+    }
+    None
 }
 
 pub fn run(ctx: &Ctx) -> Rep {
@@ -224,6 +260,19 @@ pub fn run(ctx: &Ctx) -> Rep {
                     format!("{:?} <= {:?}", names[v1], names[v2]),
                     "greater".into(),
                 );
+            }
+            // every comparison form of the two enumerations must tell the same story (a hand-written PartialOrd,
+            // PartialEq::ne or Ord::max on an enum would otherwise go unseen behind `>`)
+            for (what, bad) in [("HandRankName", ops_disagree(names[v1], names[v2], names[v1] as u32 == names[v2] as u32)), ("HandRankClass", ops_disagree(classes[v1], classes[v2], classes[v1] as u32 == classes[v2] as u32))] {
+                if let Some(form) = bad {
+                    rep.violation(
+                        "the enumerations are totally ordered consistently with equality, in every comparison form",
+                        &format!("{} {}", what, form),
+                        Input::U16s(vec![v1 as u16, v2 as u16]),
+                        "all comparison forms agree with cmp and with variant identity".into(),
+                        format!("{} disagrees for {:?}/{:?} vs {:?}/{:?}", form, names[v1], classes[v1], names[v2], classes[v2]),
+                    );
+                }
             }
             if classes[v1] > classes[v2] {
                 rep.violation(
